@@ -162,3 +162,18 @@ Theorem C04_history_stamps_full :
               (has_tse d = true -> map k_tse K = stamps_of 1 (w_log w)).
 Proof. exact history_stamps_full. Qed.
 Print Assumptions C04_history_stamps_full.
+
+(* ------------------------------------------------------------------ tie by translation: opening / closing functions *)
+(* <prefix><dst>_open_packet / _close_packet as REGENERATED from the template text of barectf.c.j2 on every
+   run (tools/c2coq.py -> Gen/CSkelFuns.v fn_open, fn_close; the serialization of the header / context
+   operation trees and the three write-back blocks are single abstract statements, tied by the operation
+   tree capture and the differential runs), run by the semantics of Tracer/CSkelOC.v, are Model.open_fn /
+   Model.close_fn for every data stream type and world: what is written and when: at opening the header constants and the context values with the late members skipped, at closing the content size taken at the current position, then the three write-backs, the position parked at the packet size, the sequence number incremented only when the member exists. *)
+From BT.Tracer Require Import CSkel CSkelOC CSkelOCProofs.
+From BT.Gen Require Import CSkelFuns.
+Theorem C04_open_fn_is_the_translated_C : forall d w, run_oc d fn_open w = Some (open_fn d w).
+Proof. exact skel_open. Qed.
+Print Assumptions C04_open_fn_is_the_translated_C.
+Theorem C04_close_fn_is_the_translated_C : forall d w, run_oc d fn_close w = Some (close_fn d w).
+Proof. exact skel_close. Qed.
+Print Assumptions C04_close_fn_is_the_translated_C.
